@@ -40,12 +40,9 @@ def judge(case):
         RTCM_PAYLOADS_GET_MSM,
     )
 
-    libexc = (
-        exceptions.RTCMTypeError,
-        exceptions.RTCMMessageError,
-        exceptions.RTCMParseError,
-        exceptions.RTCMStreamError,
-    )
+    from mc.readerharness import lib_exceptions  # pylint: disable=import-outside-toplevel
+
+    libexc = lib_exceptions()
     out = core.Outcome()
     num, sub, ver, pad = case["num"], case.get("sub"), case.get("ver", 0), case.get("pad", 0)
     payload = build(num, sub, ver, pad, case["tail"])
